@@ -192,7 +192,7 @@ func planClusterNonPushdown(opts *Opts, query *sql.Query) (core.FlatRowSource, e
 	// Remove group by, having, order by and limit from query
 	sqlString := query.SQL
 	crosstabString := concatForCrosstab(sqlString)
-	lowerSQL := strings.ToLower(sqlString)
+	lowerSQL := lowerASCII(sqlString)
 	indexOfGroupBy := strings.Index(lowerSQL, "group by ")
 	indexOfHaving := strings.Index(lowerSQL, "having ")
 	indexOfOrderBy := strings.Index(lowerSQL, "order by ")
@@ -209,7 +209,7 @@ func planClusterNonPushdown(opts *Opts, query *sql.Query) (core.FlatRowSource, e
 
 	if query.HasHaving {
 		// Insert having field
-		fromRegex, err := regexp.Compile(fmt.Sprintf("from\\s+%v", strings.ToLower(query.FromSQL)))
+		fromRegex, err := regexp.Compile(fmt.Sprintf("from\\s+%v", lowerASCII(query.FromSQL)))
 		if err != nil {
 			return nil, fmt.Errorf("Unable to compile from regex: %v", err)
 		}
@@ -351,4 +351,18 @@ parseLoop:
 	}
 	out = append(out, []byte(" as _crosstab")...)
 	return string(out)
+}
+
+// lowerASCII lower-cases the ASCII letters of s and leaves every other byte
+// alone, so that byte indexes into the result are valid indexes into s (unlike
+// strings.ToLower, which re-encodes invalid UTF-8 and some letters to a
+// different length).
+func lowerASCII(s string) string {
+	b := []byte(s)
+	for i, c := range b {
+		if c >= 'A' && c <= 'Z' {
+			b[i] = c + ('a' - 'A')
+		}
+	}
+	return string(b)
 }
